@@ -39,7 +39,7 @@ PY = {
     "seldom": "(math.sqrt(x/2) if x <= 0.5 else 1-math.sqrt((1-x)/2))", "somewhat": "math.sqrt(x)", "very": "x*x",
 }
 CLS = {"any": "Any", "extremely": "Extremely", "not": "Not", "seldom": "Seldom", "somewhat": "Somewhat", "very": "Very"}
-LAWS = ["formula", "range", "fixed", "monotone", "arrays", "singletons", "fresh", "pyfloat"]
+LAWS = ["formula", "range", "fixed", "monotone", "arrays", "singletons", "fresh", "pyfloat", "large"]
 
 
 def _replay(name, law):
@@ -65,6 +65,9 @@ def _replay(name, law):
                       "M = [[v[k] for k in sorted(v) if k.startswith('m%d' % i)] for i in range(2)]; B = np.array(M); r2 = Hd.hedge(B)\n"
                       "bad = not (same(r, [f(t) for t in X], tol) and same(r2, [[f(t) for t in row] for row in M], tol) and same(A, X) and same(B, M))",
             "pyfloat": "bad = not (same(float(Hd.hedge(float(x))), float(Hd.hedge(np.float64(x))), 0.0) and same(float(Hd.hedge(np.array(x))), float(Hd.hedge(np.float64(x))), 0.0))",
+            "large": "A = np.arange(16385, dtype=float) / 16384.0; A[3] = x; A[9000] = x2; r = Hd.hedge(A)\n"
+                     "E = np.array([f(t) for t in (A[0], A[3], A[8192], A[9000], A[16384])])\n"
+                     "bad = np.shape(r) != A.shape or not same(np.asarray(r)[[0, 3, 8192, 9000, 16384]], E, tol) or bool(np.isnan(np.asarray(r, dtype=float)).any())",
             "singletons": "bad = False\n"
                           "for A in (np.array([x]), np.array([[x]]), np.array([[x], [x2]]), np.array([[x, x2]]), np.array([[[x]]]), np.array([[x, x, x2], [x2, x, x2]]).T, np.array([x, x2, x2])[::-1]):\n"
                           "    r = Hd.hedge(A); bad = bad or np.shape(r) != A.shape or not same(r, np.vectorize(f)(A), tol)",
@@ -114,6 +117,16 @@ def _ob(name, law, tier):
                     z1 *= 0.5
                 z2 = Hd.hedge(core.sym0d(x2))
                 return r2, [_hedge(fl, name).hedge(x2), _hedge(fl, name).hedge(x)], z2      # expected values from fresh hedge objects
+            if law == "large":
+                # an array beyond any plausible "small input" threshold (16385 elements): the dyadic grid k/16384 - which holds 0, 0.5 and 1
+                # exactly - with two symbolic elements; every element is still the hedge of that element
+                grid = [core.const(k / 16384.0) for k in range(16385)]
+                grid[3], grid[9000] = x, x2
+                r = Hd.hedge(sym_array(grid))
+                els = core.elements(r) if core.kind_of(r)[0] == "array" else []
+                picks = [els[i] for i in (0, 3, 8192, 9000, 16384)] if len(els) == 16385 else []
+                nans = [e for e in els if isinstance(e, core.SymFloat) and e.concrete() is not None and e.concrete() != e.concrete()]
+                return core.kind_of(r), picks, [Hd.hedge(t) for t in (core.const(0.0), x, core.const(0.5), x2, core.const(1.0))], len(nans)
             if law == "pyfloat":
                 S.pyfloats = True
                 # a plain Python float, a NumPy scalar and a 0-d array (what np.where-based code returns for a scalar) give one value
@@ -163,6 +176,10 @@ def _ob(name, law, tier):
             elif law == "fresh":
                 r2, e2, z2 = r
                 ob.prove(pre, p, z3.And(all_same(r2, e2), all_same(z2, [e2[0]])), f"{name}/fresh-results", ins, rp)
+            elif law == "large":
+                kind, picks, want, nn = r
+                ob.prove(pre, p, z3.And(z3.BoolVal(kind == ("array", (16385,)) and nn == 0), *[same(tf(a), tf(b)) for a, b in zip(picks, want)]) if picks else z3.BoolVal(False),
+                         f"{name}/large-array {kind} concrete NaN elements: {nn}", ins, rp)
             elif law == "pyfloat":
                 ob.prove(pre, p, z3.And(same(tf(r[0]), tf(r[1])), same(tf(r[2]), tf(r[1]))), f"{name}/python-float+0d", ins, rp)
             elif law == "singletons":
@@ -296,6 +313,8 @@ def _obligations(tier, seed):
     obs = []
     for name in SPEC:
         for law in LAWS:
+            if law == "large" and tier == "quick":
+                continue      # 16385-element arrays: thorough tier (a minute per hedge)
             obs.append((f"{name}/R/{law}", _ob(name, law, tier)))
     for law in ("order", "inverse_vs", "inverse_es", "involution"):
         obs.append((f"relations/R/{law}", _ob_rel(law)))
